@@ -2,6 +2,7 @@ package main
 
 import (
 	"fmt"
+	"math/big"
 	"go/ast"
 	"go/token"
 	"go/types"
@@ -304,8 +305,18 @@ func (e *Exec) convExplicit(v string, from, to types.Type, st *State, pos token.
 		fb, ok1 := from.Underlying().(*types.Basic)
 		tb, ok2 := to.Underlying().(*types.Basic)
 		if ok1 && ok2 && fb.Info()&types.IsInteger != 0 && tb.Info()&types.IsInteger != 0 {
-			// integer narrowing: int64 -> int is the identity on 64-bit platforms (assumed); others wrap
-			if tb.Kind() != types.Int && tb.Kind() != types.Int64 && tb.Kind() != types.UntypedInt {
+			// integer narrowing: int64 -> int is the identity on 64-bit platforms (assumed); a conversion to a narrower type
+			// wraps around (two's complement), as in Go
+			bits := map[types.BasicKind]int{types.Int8: 8, types.Int16: 16, types.Int32: 32, types.Uint8: 8, types.Uint16: 16, types.Uint32: 32}
+			if k, narrow := bits[tb.Kind()]; narrow && fb.Kind() != tb.Kind() {
+				mod := new(big.Int).Lsh(big.NewInt(1), uint(k)).String()
+				if tb.Info()&types.IsUnsigned != 0 {
+					return "(mod " + v + " " + mod + ")"
+				}
+				half := new(big.Int).Lsh(big.NewInt(1), uint(k-1)).String()
+				return "(- (mod (+ " + v + " " + half + ") " + mod + ") " + half + ")"
+			}
+			if tb.Kind() != types.Int && tb.Kind() != types.Int64 && tb.Kind() != types.UntypedInt && tb.Kind() != fb.Kind() {
 				e.note("integer conversion to " + tb.Name() + " treated as the identity")
 			}
 		}
